@@ -197,13 +197,8 @@ def check_main_loop(ctx, num=3):
 
 
 def _loopenv(lp) -> dict:
-    from ..util import _pure_call
-    cnt, env = {}, {}
-    for n in ast.walk(lp):
-        if isinstance(n, ast.Assign) and len(n.targets) == 1 and isinstance(n.targets[0], ast.Name):
-            cnt[n.targets[0].id] = cnt.get(n.targets[0].id, 0) + 1
-            env[n.targets[0].id] = n.value
-    return {k: v for k, v in env.items() if cnt[k] == 1 and not any(isinstance(x, ast.Call) and not _pure_call(x) for x in ast.walk(v))}
+    from ..util import loop_env
+    return loop_env(lp)
 
 
 def check_sweep(ctx, sm, exc, num=4):
